@@ -13,7 +13,8 @@ LEVEL = ("Static error discipline on every density evaluation reachable from Cha
          "Does not decide value statements ('returned position is finite') or two-fault sequences."
          " Added: every options object reaching extend() is the caller's options with at most check_turning overridden (R6 on MIR); MCLMC retry bookkeeping covers the step budget (R9 = C18-R4 analysis)."
          " Added (round 4): a function that moves the persistent state out of self puts a state back before every error exit (R11, positive control planted)."
-         " Added (round 6): the formula kernels neither clamp an f64 nor branch on its class, so a non-finite gradient reaches the energy test (R12 = C17-K12); draw / gradient estimators of the diagonal strategy receive the same operations in every method, so a re-initialised chain does not trip the count assertion (R13 = C08-R14).")
+         " Added (round 6): the formula kernels neither clamp an f64 nor branch on its class, so a non-finite gradient reaches the energy test (R12 = C17-K12); draw / gradient estimators of the diagonal strategy receive the same operations in every method, so a re-initialised chain does not trip the count assertion (R13 = C08-R14)."
+         " Added (round 7): the low-rank window deques shrink only in switch(), together with the split index, so a re-initialised chain does not underflow background_count() (R15 = C09-R2); no unguarded unwrap of a DivergenceInfo field (C13-R15 is the deciding rule, claimed by C13).")
 EXPLANATION = ("ERR classification over MIR def-use for all bodies reachable in the call graph from the Chain entry points; three-valued "
                "evaluation of the branch conditions that control the Ok / Divergence / Err constructions.")
 TRUSTED = ["rustc nightly MIR/HIR", "nutsfacts extractor", "rules/err.py", "rules/c05.py"]
@@ -634,4 +635,9 @@ def run(F, R, config="all"):
     # re-initialisation after a rejected starting point must leave the estimators consistent (the update asserts equal counts: a panic, not an error)
     K.borrow_rule(R, lambda sub: c08.paired_estimators(F, sub), "C05-R13", "a chain initialised again after a faulted start keeps its draw / gradient estimators "
                   "in step (C08-R14 analysis): otherwise the next draw panics on the count assertion instead of reporting an error", only_rules={"C08-R14"})
+    # the same for the low-rank window: background_count() unwraps `draws.len() - background_split`, so a deque shrunk outside switch() panics on the next draw
+    from . import c09
+    K.borrow_rule(R, lambda sub: c09.r2(F, sub), "C05-R15", "a chain initialised again after a faulted start keeps the low-rank window and its split index in step "
+                  "(C09-R2 analysis: only switch() removes elements from the window deques, and it moves the split with them): otherwise `background_count()` "
+                  "underflows and the next draw panics instead of reporting an error", only_rules={"C09-R2"})
     R.assume("user-supplied Math implementations may return any error at any call; is_recoverable() is the documented classifier")
